@@ -50,6 +50,37 @@ def run(ctx, rep):
     _n5(ctx, rep)
     _n6(ctx, rep)
     _n7(ctx, rep)
+    _n8(ctx, rep)
+
+
+def _n8(ctx, rep):
+    """reading a property never changes the object: a getter stores to no field of self, except a lazily built cache that it guards with
+    `is None` and fills from inputs fixed at construction (the caches of N2)"""
+    from ..astutil import lazy_accessor
+    rep.rule("N8", "property getters do not write to the object they are read from (a default resolved on first read and stored - e.g. the "
+                   "global tolerance of that moment - would make later results depend on when the property was first read); lazily built "
+                   "caches of construction-time data excepted", floor=100)
+    n = 0
+    for f in ctx.ix.funcs.values():
+        if f.kind != "property" or not f.module.name.startswith("quara.") or not f.self_name:
+            continue
+        n += 1
+        stores = [x for x in own_nodes(f.node) if isinstance(x, ast.Attribute) and isinstance(x.ctx, ast.Store) and isinstance(x.value, ast.Name)
+                  and x.value.id == f.self_name]
+        if not stores:
+            rep.holds("N8", f, "getter %s" % f.name, "no store to self", nontrivial=False)
+            continue
+        for fld in sorted({x.attr for x in stores}):
+            guarded, region, ret_ok = lazy_accessor(f, fld)
+            reads_global = any(isinstance(c, ast.Call) and "Settings" in unparse(c.func) for c in ast.walk(f.node))
+            if guarded and ret_ok and not reads_global and fld.lstrip("_") == f.name:
+                rep.holds("N8", f, "getter %s builds %s" % (f.name, fld), "guarded lazy cache of its own field")
+            else:
+                rep.violation("N8", f, "getter %s stores self.%s" % (f.name, fld), "reading the property `%s` writes self.%s%s: the object changes by being "
+                              "read, and what it keeps depends on the moment of the first read" % (f.name, fld, " (from the global settings)" if reads_global else ""),
+                              node=[x for x in stores if x.attr == fld][0])
+    if n == 0:
+        rep.undecided("N8", "quara", "getters", "no property getters found")
 
 
 # ------------------------------------------------------------------------------ N1
